@@ -157,7 +157,7 @@ CHECKS = {
              "with fch1 per orientation; de-drifting shifts row i by round(|d| i dt/df) towards the start of the drift for either sign (offsets "
              "monotone, never beyond the frame), row 0 is unshifted and the output axis labels its pixels with their input frequencies, a rate "
              "is rejected iff it leaves no channels, a constant-drift path lands within half a channel of one column, metadata are inherited; "
-             "spectra / time series are the per-column / per-row sum or mean. The model is compared exactly with get_slice / dedrift / "
+             "spectra / time series are the per-column / per-row sum or mean; normalising is the affine map (x - m)/s of that vector (source-regenerated), giving mean (mean - m)/s and variance var/s^2, i.e. 0 and 1 with the vector's own moments, order kept. The model is compared exactly with get_slice / dedrift / "
              "integrate on frames with distinct integer pixels (synthetic and loaded from .fil/.h5; normalised integrations are compared to 1e-9 with (x - m)/s for m, s from an independent 3-sigma clipping, for arrays and objects), and data, axes, rejection, inherited "
              "attributes, axis carried by Spectrum/TimeSeries and copy-not-view are evaluated on the implementation.",
         design="3/C17", technique="source-regenerated scalar kernels (tools/py2v.py) proved equal to the model + Coq proof (list routing + round-half-even monotonicity over Q) + exact correspondence on integer-tagged frames"),
